@@ -104,7 +104,8 @@ class C15:
                              "pkg": pkg, "bins": bins, "extra": rng.choice(["", "\n[metadata]\nk = 1\n", "\n# trailing comment\n"]),
                              # cargo targets that are NOT binaries of the buildpack (cargo metadata lists them with
                              # crate_types ["bin"] too; only kind ["bin"] marks a binary)
-                             "aux": [a for a in ["test", "example", "bench", "build"] if rng.random() < 0.3]})
+                             "aux": [a for a in ["test", "example", "bench", "build"] if rng.random() < 0.3],
+                             "own_pkg": rng.random() < 0.3})
             comps = []
             for k in range(rng.randint(0, 3)):
                 name = "meta%d" % k
@@ -190,6 +191,8 @@ class C15:
                     open(os.path.join(d, "build.rs"), "w").write(body)
             open(os.path.join(d, "Cargo.toml"), "w").write(cargo)
             open(os.path.join(d, "buildpack.toml"), "w").write(f'api = "0.10"\n\n[buildpack]\nid = "{L["id"]}"\nversion = "0.1.0"\n{L["extra"]}')
+            if L.get("own_pkg"):
+                open(os.path.join(d, "package.toml"), "w").write('# shipped with the buildpack\n[buildpack]\nuri = "."\n\n[platform]\nos = "windows"\n')
         for C in c["comps"]:
             d = os.path.join(root, C["dir"])
             os.makedirs(d, exist_ok=True)
